@@ -35,6 +35,9 @@ CHECKS = {
  "C17": ("2/C17", TECH + ": all option lists up to a length bound, in every order, over finite option alphabets x reference sites; reference fold of the contract",
          "every evaluate-option list (<=3/4 options) and compile-option list (<=2/3 options) over the alphabets is applied to the real Evaluate/Compile for every program / call site; outcomes (values by pointer identity, error sentinels via errors.Is, call counters and call logs of instrumented custom functions) are compared with a fold of the declared contract",
          "the contract fold is hand-written from the statement; acceptance of variadic custom functions is left open (totality only)"),
+ "C12": ("2/C12", TECH + ": one subject per message descriptor of a schema-covering resource family and per System value form x every type specifier x 3 namespace forms, vs a hand-written R4 parent table",
+         "every (subject, type specifier) pair of the finite product is evaluated with the real `is` and `as`; the declared type of each subject comes from its schema position, not from the repository",
+         "R4 parent table is hand-written; quick uses the ancestor chain plus 42 fixed names for inner elements (thorough: the full name set)"),
  "C13": ("2/C13", TECH + ": items (value pool + string grammar) x 8 targets x {toT, convertsToT} with relational laws",
          "complete enumeration of the item pool and the string grammar against the laws of the statement and a hand-written conversion table",
          "conversion table and per-string validity parsers are hand-written in the harness"),
